@@ -8,6 +8,9 @@
      frames   call frames left behind by a failing program   failDeep  error raised three calls deep
      names    names declared by a program                    declare   令‹名› = …
      libs     libraries imported by a program                importLib 导入《@JSON》
+     respdef  the headers a library type's constructor gives  mutResp   create a response without headers, 写入 into its 头部
+              to every new instance
+     modpath  how the name of a module file is resolved       fileImport  run a FILE that imports a custom module 工具-计算
      source   the program text bound to an interpreter       (LoadScript / LoadFile of another request)
    Design "intended": every execution starts from its own pristine copy of all cells, and the source is
    bound to the REQUEST.  Design "ascoded" (named deviation, the behaviour of the original code): the
@@ -20,8 +23,9 @@ EXTENDS Integers, Sequences, FiniteSets, TLC, Json
 
 CONSTANTS Design, Mode, MaxN, Conc
 
-Polluters == {"incNum", "redefExc", "redefLib", "mutLib", "failDeep", "declare", "importLib"}
-Pristine == [num |-> 0, excctor |-> "builtin", libctor |-> "builtin", libdef |-> "clean", frames |-> 0, names |-> {}, libs |-> {}]
+Polluters == {"incNum", "redefExc", "redefLib", "mutLib", "failDeep", "declare", "importLib", "mutResp", "fileImport"}
+Pristine == [num |-> 0, excctor |-> "builtin", libctor |-> "builtin", libdef |-> "clean", frames |-> 0, names |-> {}, libs |-> {},
+             respdef |-> "clean", modpath |-> "fresh"]
 
 (* ------------------------------------------------------------------ sequential part *)
 VARIABLES cells,      \* process-wide cells (only meaningful for Design = "ascoded")
@@ -37,6 +41,8 @@ Effect(p, c) == CASE p = "incNum" -> [c EXCEPT !.num = @ + 5]
                   [] p = "failDeep" -> [c EXCEPT !.frames = 3]
                   [] p = "declare" -> [c EXCEPT !.names = @ \cup {"X"}]
                   [] p = "importLib" -> [c EXCEPT !.libs = @ \cup {"json"}]
+                  [] p = "mutResp" -> [c EXCEPT !.respdef = "dirty"]
+                  [] p = "fileImport" -> [c EXCEPT !.modpath = "used"]
 Seqs == UNION {[1..n -> Polluters] : n \in 0..MaxN}
 SInit == /\ Mode = "seq" /\ seq \in Seqs /\ done = 0 /\ cells = Pristine /\ obs = [k |-> "none"]
          /\ st = <<>> /\ src = 0 /\ bound = <<>> /\ sched = <<>>
